@@ -17,6 +17,8 @@ C11  Genetic maps and map functions obey their defining laws  (R6 is shared with
 """
 import ast
 
+from sa import ieee
+
 from sa.astutil import dump, where, kwargs_of, walk_no_nested, field_of, is_const
 from sa.model import AnalysisError, body_nodoc
 from sa.vn import VN, Poly, INF, normalise_function, parse_expr, VNUnknown, comparable
@@ -58,18 +60,28 @@ def check_mapfns(prog, rep):
         else:
             rep.violate("R1-formulas", fi.qualname, "invmapfn normalises to %s; the inverse %s map function is %s" % (i.show(), cname[:-11], ir.show()),
                         where(fi), ir.show(), i.show())
-        comp = normalise_function(prog, fi, env={pi: m})
-        if comp == Poly.atom(("var", pm)):
-            rep.ok("R1-formulas", c.qualname + "#inverse", "invmapfn(mapfn(%s)) normalises to %s" % (pm, pm))
-        else:
-            rep.violate("R1-formulas", c.qualname, "invmapfn(mapfn(%s)) normalises to %s, not to %s" % (pm, comp.show(), pm), where(fi), pm, comp.show())
-        z = normalise_function(prog, fm, env={pm: Poly.const(0)})
-        inf = normalise_function(prog, fm, env={pm: Poly.atom(INF)})
-        if z.const_value() == 0 and inf.const_value() is not None and inf.const_value() * 2 == 1:
-            rep.ok("R1-formulas", c.qualname + "#limits", "mapfn(0) = 0 and mapfn(+inf) = 1/2")
-        else:
-            rep.violate("R1-formulas", c.qualname, "mapfn(0) = %s, mapfn(+inf) = %s (must be 0 and 1/2)" % (z.show(), inf.show()), where(fm), "0, 1/2",
-                        "%s, %s" % (z.show(), inf.show()))
+        if m == mr and i == ir:
+            comp = normalise_function(prog, fi, env={pi: m})
+            if comp == Poly.atom(("var", pm)):
+                rep.ok("R1-formulas", c.qualname + "#inverse", "invmapfn(mapfn(%s)) normalises to %s" % (pm, pm))
+            else:
+                rep.unrec("R1-formulas", c.qualname + "#inverse", "invmapfn(mapfn(%s)) normalises to %s" % (pm, comp.show()[:80]))
+        # boundary values by IEEE constant folding of the body at the two literal points (exact: 0 -> 0, +inf -> 1/2; inf/inf is NaN)
+        try:
+            z = ieee.fold(prog, fm, body_nodoc(fm.node), {pm: 0.0})
+            at_inf = ieee.fold(prog, fm, body_nodoc(fm.node), {pm: ieee.INF})
+            if z == 0.0 and at_inf == 0.5:
+                rep.ok("R1-formulas", c.qualname + "#limits", "mapfn(0) = 0 and mapfn(+inf) = 1/2 (IEEE evaluation of the body at the two points)")
+            else:
+                rep.violate("R1-formulas", c.qualname, "under IEEE arithmetic mapfn(0) = %r and mapfn(+inf) = %r (must be exactly 0 and 1/2: every chromosome start carries "
+                            "distance +inf)" % (z, at_inf), where(fm), "0.0, 0.5", "%r, %r" % (z, at_inf))
+        except ieee.FoldUnknown as ex:
+            z = normalise_function(prog, fm, env={pm: Poly.const(0)})
+            inf = normalise_function(prog, fm, env={pm: Poly.atom(INF)})
+            if z.const_value() == 0 and inf.const_value() is not None and inf.const_value() * 2 == 1:
+                rep.ok("R1-formulas", c.qualname + "#limits", "mapfn(0) = 0 and mapfn(+inf) = 1/2")
+            else:
+                rep.unrec("R1-formulas", c.qualname + "#limits", "boundary values not foldable (%s); symbolic limits %s, %s" % (ex, z.show()[:40], inf.show()[:40]))
         # rprob = mapfn o gdist
         for suffix in ("1g", "2g", "1p", "2p"):
             f = prog.lookup_method(c, "rprob" + suffix)
